@@ -58,6 +58,41 @@ CLAIMED = {
              'generate_latest, the Pushgateway decoding rules as written in the decoder model.',
         technique='Coq proof over executable Gallina model (encoder + decoder) + exact-URL differential correspondence + independent decoder oracle',
         ref='7/C19'),
+    'C06': dict(
+        text="16 theorems over the model of CollectorRegistry.register/unregister/set_target_info (model/Registry.v): the ownership invariant holds after EVERY history (failed calls included), no two registered collectors claim a name, a failed call leaves the registry exactly unchanged and raises ValueError, unregister releases all and only the collector's names, re-registration works. Tie: histories over a clash-rich alphabet (exhaustive to depth 3-4, random to 40) compared step by step through public behaviour only (restricted_registry look-ups, collect(), get_target_info()).",
+        note='Trusted: Coq kernel, extraction/driver, dict insertion order modelled as association lists, collectors do not change during a history.',
+        technique='Coq proof over executable Gallina model + differential correspondence (extracted OCaml) + direct property oracle',
+        ref='7/C06'),
+    'C07': dict(
+        text="11 theorems: collect = target info (if set) followed by each registered collector's families once in registration order, for every history; a restricted registry is exactly the filter by sample name with family name/type/help/unit unchanged, empty families omitted, and collect() called only on claimants (under well_described, which is necessary). Tie: registries from C06 histories x all name subsets; HTTP name[] path (WSGI, ASGI, _bake_output) checked by the direct oracle.",
+        note='Trusted: as C06; set iteration order unspecified (restricted collections compared as multisets); parse_qs.',
+        technique='Coq proof over executable Gallina model + differential correspondence (extracted OCaml) + direct property oracle',
+        ref='7/C07'),
+    'C08': dict(
+        text='13 theorems over the model of MultiProcessCollector.merge (model/Multiproc.v) and its declarative spec: every series equals the per-mode aggregate of its contributions in read order, no series duplicated or dropped, histogram buckets merged per parsed bound, sorted, cumulative, _count = +Inf bucket, min/max order independent for NaN-free input, mark_process_dead removes exactly the live-mode gauge files of that pid. Tie: 1-4 simulated processes (child interpreter with PROMETHEUS_MULTIPROC_DIR), all 10 gauge modes, dead pids, pid reuse; model fed the entries read from the files in the actual read order; thorough tier forks real workers.',
+        note='Trusted: float order laws as Section hypotheses (< irreflexive/transitive, totality on non-NaN), floatToGoString injective on bounds, JSON key codec, glob order observed not assumed.',
+        technique='Coq proof over executable Gallina model + differential correspondence (extracted OCaml) + direct property oracle',
+        ref='7/C08'),
+    'C09': dict(
+        text="7 theorems over the model of the MultiProcessValue closure (model/Values.v): a step under identity p changes no file of another pid; after an identity change every live value is re-bound to the new pid's file and continues from what it holds (0 if absent); every cell equals the left fold of exactly the updates issued under that identity; integer corollary: the sum over all pid files equals the sum of all increments. Tie: histories with identity changes at every position, per-step snapshot of which files changed; thorough tier uses real os.fork().",
+        note='Trusted: mmap file abstracted to key -> (value, timestamp) (justified by C10); wf_hist: no two live values share (prefix, key).',
+        technique='Coq proof over executable Gallina model + differential correspondence (extracted OCaml) + direct property oracle',
+        ref='7/C09'),
+    'C16': dict(
+        text='19 theorems over a call-language model of the three context managers/decorators and of Python argument binding (model/Wrappers.v): transparency (same value / same exception object) for every body and nesting, in-progress gauge balanced, exactly one non-negative observation per timed call for any clock, counter +1 iff a matching exception escapes, forwarding of every argument shape; refutation witnesses for positional-only/keyword collisions (known finding). Tie: exec-generated callables x call shapes x scripted clocks compared with the model; direct oracle compares wrapped with undecorated behaviour.',
+        note='Partial by design: exec-generated functions, __wrapped__, attribute copying, the with-statement protocol are runtime and checked by the direct oracle only. Two known findings in the vendored decorator module (posonly_kw_collision, reserved_param_name).',
+        technique='Coq proof over executable Gallina model + differential correspondence (extracted OCaml) + direct property oracle',
+        ref='7/C16'),
+    'C17': dict(
+        text='18 theorems over the decision logic of choose_encoder, gzip_accepted, _bake_output and the three front-ends (model/Http.v): OpenMetrics iff the Accept header lists the media type (declarative spec without split/strip), gzip iff enabled and listed (ASCII case-insensitive), the three front-ends agree, WSGI OPTIONS/405 without collecting. Tie: WSGI callable, ASGI coroutine and MetricsHandler (fake socket; loop-back servers for a subset) driven on generated headers/queries and compared with the model and with each other; direct oracle = independent RFC-style tokenizer.',
+        note='Partial by design: wsgiref, http.server, email.parser, gzip, parse_qs are trusted runtime; lower_gzip hypothesis validated over all code points each run.',
+        technique='Coq proof over executable Gallina model + differential correspondence (extracted OCaml) + direct property oracle',
+        ref='7/C17'),
+    'C18': dict(
+        text='19 theorems over a small-step model of write_to_textfile on an abstract file system (model/Textfile.v): at every prefix of every faulted or unfaulted run the target is old or the complete new exposition; a raising call leaves target unchanged, removes the temporary file and the error reaches the caller; N writers under any schedule install complete expositions only. Tie: exposition.open/os/threading replaced by recording, faulting, turn-taking proxies; every single fault at every I/O step and collector, all interleavings of two writers, SIGKILL of real child processes.',
+        note='Partial: rename(2)/os.replace atomicity is built into the model (one transition) and is the one OS fact assumed; an asynchronous KeyboardInterrupt after rename is outside the model.',
+        technique='Coq proof over executable Gallina model + differential correspondence (extracted OCaml) + direct property oracle',
+        ref='7/C18'),
 }
 
 ALL = ['C%02d' % i for i in range(1, 20)]
